@@ -67,7 +67,8 @@ def delete_edit(draw, spec):
 def cross_edit(draw, spec):
     return dict(op="cross_system", how=draw(st.sampled_from(["append_job", "assign_journey", "new_system",
                                                               "assign_devices", "assign_server", "assign_live_list",
-                                                              "assign_live_list_jobs", "extend_with_live_list"])),
+                                                              "assign_live_list_jobs", "extend_with_live_list",
+                                                              "append_fresh_job", "assign_fresh_job"])),
                 pick=draw(st.integers(0, 1000)))
 
 
@@ -306,6 +307,24 @@ def check(case, ctx):
                         objs[sorted(steps_)[pick % len(steps_)]].jobs = b["b_step"].jobs
                     elif how == "extend_with_live_list":
                         b["b_up"].devices.extend(objs[cur["system"][0]].devices)
+                    elif how in ("append_fresh_job", "assign_fresh_job"):
+                        # an object that is in no system yet but brings along objects of the other system
+                        steps_ = sorted(n_ for n_ in S.spec_reachable(cur)
+                                        if cur["objs"][n_]["cls"] == "UsageJourneyStep")
+                        if not steps_:
+                            labels.append("cross_not_applicable")
+                            continue
+                        from efootprint.core.usage.job import Job
+                        fresh_job = Job.from_defaults("fresh job %d" % i, server=b["b_srv"])
+                        try:
+                            stp_ = objs[steps_[pick % len(steps_)]]
+                            if how == "append_fresh_job":
+                                stp_.jobs.append(fresh_job)
+                            else:
+                                stp_.jobs = list(stp_.jobs) + [fresh_job]
+                        except Exception:
+                            fresh_job.self_delete()    # the caller discards the object it could not link
+                            raise
                     elif how == "assign_server" and comp["jobs"] and any(
                             cur["objs"][j]["cls"] == "Job" for j in comp["jobs"]):
                         j = [j for j in comp["jobs"] if cur["objs"][j]["cls"] == "Job"][0]
